@@ -1,5 +1,5 @@
 P = {
-    "gens": ["C16clamgr", "C16clamgrconc"],
+    "gens": ["C16clamgr", "C16clamgrconc", "C16clamgrext"],
     "theorems": ["C16_active_iff_started", "C16_retry_permanent", "C16_retry_permanent_recovers", "C16_retry",
                  "C16_single_instance", "C16_close_once", "C16_close_concurrent", "C16_no_panic"],
     "rule": "real cla.Manager under scripted mock adapters (Start outcome ok / fail-retry / fail-no-retry, logged "
@@ -23,6 +23,16 @@ P = {
             "stopped adapter at any point, one instance per address, once Close() and the overlapping Register have returned nothing "
             "is started or listed and no further call is made; the set of queued messages the handler still processed is validated "
             "against Model.cm_conc_close (some split restart-before-flag / unregister-after-flag / dropped explains the calls). "
+            "(e) C16clamgrext kind seqc: the histories of (a)/(b) with a second per-step oracle, the outcome of the adapter's "
+            "Close() (nil / error), branched in the bounded-exhaustive part (quick: budgets 0 and 2) exactly where Close was called; "
+            "an adapter whose Close() returned an error is stopped all the same: same reference run, the step returns (10 s guard, "
+            "clamgr.deadlock.*), the adapter is not listed afterwards, Manager.Close() returns and does not stop it again; kind tickerc: "
+            "(c) with an adapter whose Close() always fails; "
+            "(f) C16clamgrext kind traffic: the REAL retry timer (20/30/50 ms) while a started adapter emits forwarded-only status "
+            "messages (PeerAppeared / ReceivedBundle) steadily at 8..20 per retry interval: a second adapter, registered while its "
+            "Start fails (F x fail-retry then ok / fail-no-retry, permanent or budget 1..5), must have got its F+1 attempts and be "
+            "active (or be forgotten at the end of its budget) within 2(F+1)+10 retry intervals (counted by a ticker of the harness, at "
+            "least 3 s), else clamgr.retry.not-at-interval; calls / listing / registry of the stable state compared with the model. "
             "distinct = distinct case bodies",
     "assumptions": [
         "events are atomic in the model: Register/Unregister/Restart calls from other goroutines do not overlap a retry pass or "
